@@ -26,7 +26,8 @@ def option_known_some(res, read_event):
         if not sym.contains(t, lambda x: x == rt):
             continue
         # the read result must have been unwrapped from its Result at least once below this predicate
-        unwrapped = sym.contains(t, lambda x: isinstance(x, tuple) and x and x[0] == 'unwrap' and sym.contains(x[1], lambda y: y == rt))
+        unwrapped = sym.contains(t, lambda x: isinstance(x, tuple) and x and ((x[0] == 'unwrap' and sym.contains(x[1], lambda y: y == rt))
+                                                                              or (x[0] == 'payload' and x[2] == 'Ok' and sym.contains(x[1], lambda y: y == rt))))
         if not unwrapped:
             continue
         if t[0] == 'discr':
